@@ -57,6 +57,18 @@ class RealAPI:
     Bool = pdt.Bool
     is_ref = False
 
+    @staticmethod
+    def touch(tbl):
+        tbl >> X.export(pdt.Polars(lazy=True))
+        tbl >> X.build_query()
+        repr(tbl._ast)
+        tbl >> X.columns()
+        return tbl
+
+    @staticmethod
+    def colname(col):
+        return col.name
+
 
 PL_TY = {INT: pl.Int64, BOOL: pl.Boolean, STR: pl.String, REAL: pl.Float64}
 SQA_TY = {INT: sqa.BigInteger, BOOL: sqa.Boolean, STR: sqa.String, REAL: sqa.Double}
